@@ -26,6 +26,15 @@ Definition A_prune8 (g : graph) (x : N) : Prop :=
                  ((if N.eqb (type_of g i) T_SubInterface then U_cp g i false x else U_cp g i true x) \/
                   exists k, In k (disc_list g [i]) /\ U_disc g k x)).
 
+(* C08-9: Facility nodes are visited too (removed with remove_facility, which may delete what remove_node may) *)
+Definition A_prune9 (g : graph) (x : N) : Prop :=
+  (exists n, In n (all_of_class g CNode) /\ marked g n = true /\ A_node g (name_of g n) x) \/
+  (exists c n, In (c, n) (prune_comps g) /\ marked g c = true /\ A_comp g n (name_of g c) x) \/
+  (exists s, In s (prune_all_nss g) /\ marked g s = true /\ A_ns g s x) \/
+  (exists s j i, In s (prune_all_nss g) /\ In j (cpn g s) /\ In i (disc_list g [j]) /\ marked g i = true /\
+                 ((if N.eqb (type_of g i) T_SubInterface then U_cp g i false x else U_cp g i true x) \/
+                  exists k, In k (disc_list g [i]) /\ U_disc g k x)).
+
 Definition allowed (g : graph) (o : op) (x : N) : Prop :=
   match o with
   | ORemoveNode nm | ORemoveFacility nm | ORemoveSwitch nm => A_node g nm x
@@ -41,6 +50,7 @@ Definition allowed (g : graph) (o : op) (x : N) : Prop :=
   | OPrune => A_prune g x
   | OPrune7 => A_prune7 g x
   | OPrune8 => A_prune8 g x
+  | OPrune9 => A_prune9 g x
   end.
 
 Section Top.
@@ -269,6 +279,84 @@ Proof.
   repeat (split; [assumption|]). left. exact H.
 Qed.
 
+Lemma Sound_api_prune9 : Sound g0 (A_prune9 g0) api_prune9.
+Proof.
+  unfold api_prune9.
+  apply Sound_bind_get. intros d1. apply Sound_bind_get. intros d2.
+  apply Sound_bind_get. intros d3. apply Sound_bind_get. intros d4.
+  apply Sound_bind'.
+  { apply Inv_for_each_set. intros nn. apply Inv_prune_node9. }
+  { apply Sound_for_each_set. intros [nm n] Hnm. split; [apply Inv_prune_node9|].
+    apply in_map_iff in Hnm. destruct Hnm as [n' [En Hn]]. injection En as En1 En2. subst n'.
+    apply filter_In in Hn. destruct Hn as [Hn Hm].
+    apply all_of_class_restrict in Hn. destruct Hn as [Hn Hd]. apply marked_restrict in Hm. destruct Hm as [Hm _].
+    rewrite name_of_restrict in En1; [|apply memN_false; exact Hd]. subst nm.
+    unfold prune_node9. apply Sound_bind'; [apply Inv_exists_as | apply Sound_get | intros b]. simpl.
+    destruct b; [|apply Sound_ret].
+    apply Sound_bind_get. intros d5.
+    match goal with |- context [N.eqb ?a T_Facility] => destruct (N.eqb a T_Facility) end.
+    - apply (Sound_weaken g0 (A_node g0 (name_of g0 n))); [|apply Sound_api_remove_facility].
+      intros x Hx. left. exists n. auto.
+    - apply (Sound_weaken g0 (A_node g0 (name_of g0 n))); [|apply Sound_api_remove_node].
+      intros x Hx. left. exists n. auto. }
+  intros _. apply Sound_bind'.
+  { apply Inv_for_each_set. intros cn. apply Inv_prune_comp7. }
+  { apply Sound_for_each_set. intros [cname [c n]] Hcn. split; [apply Inv_prune_comp7|].
+    apply in_map_iff in Hcn. destruct Hcn as [[c' n'] [E Hc]]. simpl in E. injection E as E1 E2 E3. subst c' n'.
+    apply filter_In in Hc. destruct Hc as [Hc Hm]. simpl in Hm.
+    apply prune_comps_mono in Hc. destruct Hc as [Hc Hd]. apply marked_restrict in Hm. destruct Hm as [Hm _].
+    rewrite name_of_restrict in E1; [|apply memN_false; exact Hd]. subst cname.
+    unfold prune_comp7. simpl. apply Sound_bind'; [apply Inv_exists_as | apply Sound_get | intros b].
+    destruct b; [|apply Sound_ret].
+    apply (Sound_weaken g0 (A_comp g0 n (name_of g0 c))); [|apply Sound_api_remove_component].
+    intros x Hx. right. left. exists c, n. auto. }
+  intros _. apply Sound_bind'.
+  { apply Inv_for_each_set. intros s. apply Inv_prune_ns7. }
+  { apply Sound_for_each_set. intros s Hs. split; [apply Inv_prune_ns7|].
+    rewrite dedup_In in Hs. apply filter_In in Hs. destruct Hs as [Hs Hm].
+    apply prune_all_nss_mono in Hs. destruct Hs as [Hs _]. apply marked_restrict in Hm. destruct Hm as [Hm _].
+    unfold prune_ns7. apply Sound_bind'; [apply Inv_exists_as | apply Sound_get | intros b].
+    destruct b; [|apply Sound_ret].
+    apply (Sound_weaken g0 (A_ns g0 s)); [|apply Sound_remove_ns_disconnecting].
+    intros x Hx. right. right. left. exists s. auto. }
+  intros _. apply Sound_for_each_set. intros i Hi. split; [apply Inv_prune_if8|].
+  rewrite dedup_In in Hi. apply filter_In in Hi. destruct Hi as [Hi Hm].
+  apply in_flat_map in Hi. destruct Hi as [j [Hj Hi]].
+  apply in_flat_map in Hj. destruct Hj as [s [Hs Hj]].
+  apply prune_all_nss_mono in Hs. destruct Hs as [Hs _]. apply marked_restrict in Hm. destruct Hm as [Hm Hid].
+  unfold ns_interfaces in Hj. apply first_neighbor_restrict in Hj; [|discriminate]. destruct Hj as [Hj _].
+  assert (Hi0 : In i (disc_list g0 [j])).
+  { apply (disc_list_mono g0 d4); [auto|]. unfold disc_list. simpl. rewrite app_nil_r. exact Hi. }
+  unfold prune_if8. apply Sound_bind'; [apply Inv_exists_as | apply Sound_get | intros b].
+  destruct b; [|apply Sound_ret].
+  apply Sound_bind_get. intros d5.
+  apply Sound_bind'.
+  { apply Inv_for_each_set. intros k. apply Inv_disconnect_step. }
+  { apply (Sound_peers_loop g0 _ (fun k => In k (disc_list g0 [i]))).
+    - intros k Hk. apply (disc_list_mono g0 d5); [auto | exact Hk].
+    - intros k x Hk Hx. right. right. right. exists s, j, i. repeat (split; [assumption|]).
+      right. exists k. auto. }
+  intros _. intros st0 Hst0 x Hx. unfold bind, m_get in Hx. simpl in Hx.
+  assert (Hcase : In x (snd st0) \/ (if N.eqb (type_of g0 i) T_SubInterface then U_cp g0 i false x else U_cp g0 i true x)).
+  { destruct (in_dec N.eq_dec i (snd st0)) as [Hd|Hd].
+    - (* i is already gone: remove_cp_and_links raises before deleting anything *)
+      left. assert (Hh : has_node (fst st0) i = false).
+      { rewrite Hst0, has_node_restrict. assert (memN i (snd st0) = true) by (apply memN_In; exact Hd).
+        rewrite H. reflexivity. }
+      revert Hx. generalize (negb (N.eqb (type_of (fst st0) i) T_SubInterface)). intros dp Hx.
+      unfold remove_cp_and_links, bind, m_nonempty, need_node, m_read in Hx.
+      unfold has_node in Hh. destruct (gnodes (fst st0)); simpl in Hx; [exact Hx|].
+      destruct (find_node (fst st0) i); [discriminate|]. simpl in Hx. exact Hx.
+    - assert (Ety : type_of (fst st0) i = type_of g0 i).
+      { rewrite Hst0. apply type_of_restrict. apply memN_false. exact Hd. }
+      rewrite Ety in Hx.
+      destruct (N.eqb (type_of g0 i) T_SubInterface); simpl in Hx.
+      + exact (Sound_remove_cp g0 i false st0 Hst0 x Hx).
+      + exact (Sound_remove_cp g0 i true st0 Hst0 x Hx). }
+  destruct Hcase as [H|H]; [left; exact H|]. right. right. right. right. exists s, j, i.
+  repeat (split; [assumption|]). left. exact H.
+Qed.
+
 Lemma Sound_then_ret {A B} P (m : M A) (v : B) : Inv m -> Sound g0 P m -> Sound g0 P (bind m (fun _ => ret v)).
 Proof. intros Im Hm. apply Sound_bind'; [exact Im | exact Hm | intros _; apply Sound_ret]. Qed.
 
@@ -333,4 +421,5 @@ Proof.
   - apply (Sound_run g _ _ _ _ _ (Sound_then_ret g _ _ _ Inv_api_prune (Sound_api_prune g)) E).
   - apply (Sound_run g _ _ _ _ _ (Sound_then_ret g _ _ _ Inv_api_prune7 (Sound_api_prune7 g)) E).
   - apply (Sound_run g _ _ _ _ _ (Sound_then_ret g _ _ _ Inv_api_prune8 (Sound_api_prune8 g)) E).
+  - apply (Sound_run g _ _ _ _ _ (Sound_then_ret g _ _ _ Inv_api_prune9 (Sound_api_prune9 g)) E).
 Qed.
